@@ -118,7 +118,7 @@ def scriptProduce (a b c : Int) (k : Nat) : StepOutcome :=
   match (if (k : Int) = c then failOutcome a else none) with
   | some o => o
   | none =>
-    if (k : Int) ≥ b then .out [] true
+    if (k : Int) ≥ b ∨ k ≥ 50 then .out [] true
     else
       let d := Item.data 1 [intCell ((k : Int) + 10 * b)]
       if a = 17 then .out [.log, d] false
